@@ -76,7 +76,7 @@ type meshSvc struct {
 type meshState struct {
 	svcs        []meshSvc
 	vss         []config.Config
-	vhosts      []*route.VirtualHost
+	rc          *route.RouteConfiguration
 	proxyDomain string
 	// real generator environment of the case (built at the first `rds`, dropped when the mesh changes)
 	cg     *core.ConfigGenTest
@@ -149,11 +149,11 @@ func (s *state) rdsStep(f []string) (string, bool) {
 		proxy := m.cg.SetupProxy(&model.Proxy{ConfigNamespace: ns, Labels: labels, ID: "p" + strconv.Itoa(m.nproxy) + "." + ns,
 			Metadata: &model.NodeMetadata{Namespace: ns, Labels: labels}})
 		resources, _ := m.gen.BuildHTTPRoutes(proxy, m.req, []string{strconv.Itoa(port)})
-		m.vhosts = nil
+		m.rc = nil
 		if len(resources) == 1 {
 			rc := &route.RouteConfiguration{}
 			if err := resources[0].Resource.UnmarshalTo(rc); err == nil {
-				m.vhosts = rc.VirtualHosts
+				m.rc = rc
 			}
 		}
 		m.proxyDomain = proxy.DNSDomain
@@ -161,13 +161,13 @@ func (s *state) rdsStep(f []string) (string, bool) {
 		s.node = &model.Proxy{Type: model.SidecarProxy, Labels: labels, Metadata: &model.NodeMetadata{Namespace: ns}}
 		s.gwNames = sets.New("mesh")
 		s.port = port
-		return "ok", true
+		return showVHostTable(m.rc), true
 	case "rreq": // same layout as `req`; the authority selects the virtual host
 		if m.cg == nil {
 			return "no-rds", true // (shrunk cases) no route configuration was built for the current mesh
 		}
 		q := parseReq(f)
-		vh := selectVHostRef(m.vhosts, q.authority)
+		vh := selectVHostConf(m.rc, q.authority)
 		if vh == nil {
 			return "404", true
 		}
@@ -205,26 +205,52 @@ func hasPort(ms meshSvc, p int) bool {
 	return false
 }
 
-// vsFor: the VirtualService for a service hostname - an exact host first (oldest VirtualService), else
-// the longest matching wildcard host.
-func (s *state) vsFor(hostname string) *config.Config {
+// vsChoice: the VirtualService that answers for a service hostname on this proxy - among the VirtualServices
+// listing the MOST SPECIFIC host for it (the hostname itself if any lists it, else the longest matching wildcard),
+// the oldest one that has a rule for this proxy.  indexVariant (classification only, F-C12-6): for a wildcard
+// host only the oldest listing VirtualService is considered, whether or not it has a rule for this proxy.
+func (s *state) vsChoice(hostname string) *config.Config {
+	var listing []*config.Config
 	for i := range s.mesh.vss {
 		for _, h := range s.mesh.vss[i].Spec.(*networking.VirtualService).Hosts {
 			if !strings.HasPrefix(h, "*") && strings.ToLower(h) == hostname {
-				return &s.mesh.vss[i]
+				listing = append(listing, &s.mesh.vss[i])
+				break
 			}
 		}
 	}
-	var best *config.Config
-	bl := 0
-	for i := range s.mesh.vss {
-		for _, h := range s.mesh.vss[i].Spec.(*networking.VirtualService).Hosts {
-			if strings.HasPrefix(h, "*") && strings.HasSuffix(hostname, strings.ToLower(h[1:])) && len(h) > bl {
-				best, bl = &s.mesh.vss[i], len(h)
+	wildcard := false
+	if len(listing) == 0 {
+		wildcard = true
+		best := ""
+		for i := range s.mesh.vss {
+			for _, h := range s.mesh.vss[i].Spec.(*networking.VirtualService).Hosts {
+				if strings.HasPrefix(h, "*") && strings.HasSuffix(hostname, strings.ToLower(h[1:])) && len(h) > len(best) {
+					best = h
+				}
+			}
+		}
+		if best == "" {
+			return nil
+		}
+		for i := range s.mesh.vss {
+			for _, h := range s.mesh.vss[i].Spec.(*networking.VirtualService).Hosts {
+				if h == best {
+					listing = append(listing, &s.mesh.vss[i])
+					break
+				}
 			}
 		}
 	}
-	return best
+	for k, c := range listing {
+		if s.vsApplies(c.Spec.(*networking.VirtualService)) {
+			return c
+		}
+		if wildcard && s.indexVariant && k == 0 {
+			return nil
+		}
+	}
+	return nil
 }
 
 func (s *state) vsApplies(vs *networking.VirtualService) bool {
@@ -242,31 +268,43 @@ func (s *state) vsApplies(vs *networking.VirtualService) bool {
 }
 
 // meshSpec: what should happen to a request addressed to `authority` on this listener port.
-func (s *state) meshSpec(authority string, q request) string {
-	a := asciiLower(authority)
+func (s *state) decideFor(ms meshSvc, q request) string {
+	if c := s.vsChoice(ms.host); c != nil {
+		saveVS, saveCfg := s.vs, s.cfg
+		s.vs, s.cfg = c.Spec.(*networking.VirtualService), *c
+		d, _ := s.vsSpec(q)
+		s.vs, s.cfg = saveVS, saveCfg
+		return d
+	}
+	return showDist([]kvw{{"outbound|" + strconv.Itoa(s.port) + "||" + ms.host, 1}})
+}
+
+// meshSpec: what should happen to a request addressed to `authority` on this listener port; ok=false when the
+// spec is silent: the name is claimed by several services and is not the FQDN of one of them (CONTESTED).
+func (s *state) meshSpec(authority string, q request) (string, bool) {
+	a := asciiLower(stripPort(authority)) // the outbound listener already fixes the port
+	var claim []meshSvc
 	for _, ms := range s.mesh.svcs {
 		if !hasPort(ms, s.port) {
 			continue
 		}
+		if asciiLower(ms.host) == a || asciiLower(ms.host)+"." == a {
+			return s.decideFor(ms, q), true // the FQDN of a service addresses that service
+		}
 		for _, n := range svcNames(ms, s.mesh.proxyDomain) {
-			if asciiLower(n) != a {
-				continue
+			if asciiLower(n) == a {
+				claim = append(claim, ms)
+				break
 			}
-			if c := s.vsFor(ms.host); c != nil {
-				vs := c.Spec.(*networking.VirtualService)
-				if s.vsApplies(vs) {
-					saveVS, saveCfg := s.vs, s.cfg
-					s.vs, s.cfg = vs, *c
-					d, _ := s.vsSpec(q)
-					s.vs, s.cfg = saveVS, saveCfg
-					return d
-				}
-			}
-			return showDist([]kvw{{"outbound|" + strconv.Itoa(s.port) + "||" + ms.host, 1}})
 		}
 	}
-	// no service of that name on this port: the catch-all virtual host (outboundTrafficPolicy ALLOW_ANY)
-	return showDist([]kvw{{"PassthroughCluster", 1}})
+	switch len(claim) {
+	case 0: // no service of that name on this port: the catch-all virtual host (outboundTrafficPolicy ALLOW_ANY)
+		return showDist([]kvw{{"PassthroughCluster", 1}}), true
+	case 1:
+		return s.decideFor(claim[0], q), true
+	}
+	return "", false
 }
 
 // classifyMesh names the input class of an end-to-end disagreement.  The known class F-C12-4 is returned
@@ -283,10 +321,17 @@ func (s *state) classifyMesh(q request, want, got string) string {
 		}
 	}
 	s.services = restricted
-	alt := s.meshSpec(q.authority, q)
+	alt, _ := s.meshSpec(q.authority, q)
 	s.services = full
 	if alt == got && alt != want {
 		return "destination-port-of-service-not-on-listener-port"
+	}
+	// F-C12-6: wildcard host listed by several VirtualServices - only the oldest is ever considered
+	s.indexVariant = true
+	alt, _ = s.meshSpec(q.authority, q)
+	s.indexVariant = false
+	if alt == got && alt != want {
+		return "wildcard-host-younger-virtualservice-ignored"
 	}
 	return "mesh-decision"
 }
@@ -309,6 +354,10 @@ func meshPool(nss []string) []meshSvc {
 		}
 	}
 	out = append(out, meshSvc{host: "api.example.com", ns: nss[0]}, meshSvc{host: "www.example.com", ns: nss[len(nss)-1]})
+	// names that collide: the short form `foo.com` of the cluster-local service foo.com.svc.cluster.local (namespace
+	// "com") is the FQDN of the ServiceEntry foo.com; `reviews.<ns>` may itself be a registered hostname
+	out = append(out, meshSvc{host: "foo.com.svc.cluster.local", ns: "com"}, meshSvc{host: "foo.com", ns: nss[0]},
+		meshSvc{host: "reviews." + nss[0], ns: nss[0]})
 	return out
 }
 
@@ -337,11 +386,25 @@ func genRds(seed uint64, n int, out string) {
 		pool := meshPool(nss)
 		meshVSHosts := meshVSHostPool(nss)
 		picked := wire.Subset(r, pool, 2, 5)
+		if r.Chance(1, 4) { // force the colliding pair
+			picked = append(picked, pool[len(pool)-3], pool[len(pool)-2])
+		}
 		if len(picked) < 2 {
 			picked = append([]meshSvc(nil), pool[0], pool[len(meshSvcNames)])
 		}
-		if len(picked) > 6 {
-			picked = picked[:6]
+		{ // distinct hostnames
+			seen := map[string]bool{}
+			var u []meshSvc
+			for _, ms := range picked {
+				if !seen[ms.host] {
+					seen[ms.host] = true
+					u = append(u, ms)
+				}
+			}
+			picked = u
+		}
+		if len(picked) > 7 {
+			picked = picked[:7]
 		}
 		onPort := map[string]bool{}
 		for k, ms := range picked {
@@ -360,6 +423,9 @@ func genRds(seed uint64, n int, out string) {
 			}
 			if r.Chance(2, 3) {
 				ms.addr = "10.0." + strconv.Itoa(k) + ".1"
+				if k > 0 && r.Chance(1, 8) {
+					ms.addr = "10.0.0.1" // a VIP shared with another service: first come first served
+				}
 			}
 			onPort[ms.host] = hasPort(ms, port)
 			picked[k] = ms
@@ -368,7 +434,7 @@ func genRds(seed uint64, n int, out string) {
 			o.Line(f...)
 		}
 		// VirtualServices: distinct exact hosts among the services, plus wildcard hosts
-		nvs := r.Intn(4)
+		nvs := r.Intn(5)
 		usedHosts := map[string]bool{}
 		var all []*networking.VirtualService
 		for k := 0; k < nvs; k++ {
@@ -378,7 +444,8 @@ func genRds(seed uint64, n int, out string) {
 				if r.Chance(3, 5) {
 					h = wire.Pick(r, picked).host
 				}
-				if !usedHosts[h] {
+				// mostly distinct hosts, but two VirtualServices may list the same exact or wildcard host ("oldest wins")
+				if !usedHosts[h] || r.Chance(1, 2) {
 					usedHosts[h] = true
 					hosts = append(hosts, h)
 				}
@@ -455,6 +522,13 @@ func genRds(seed uint64, n int, out string) {
 				case 4:
 					a = wire.Pick(r, []string{"unknown.example.org", "x.default.svc.cluster.local", "reviews." + p.ns + ".svc", "example.com", "reviews." + p.ns})
 				}
+				// real clients send host:port on these listener ports; the port is not part of the virtual-host match
+				switch r.Intn(6) {
+				case 0, 1:
+					a = a + ":" + strconv.Itoa(port)
+				case 2:
+					a = a + ":" + wire.Pick(r, []string{"80", "1234", "9080"})
+				}
 				var q request
 				if len(merged.Http) > 0 {
 					q = synthRequests(r, merged, 1)[0]
@@ -516,7 +590,10 @@ func oracleRds(in, out string) {
 					return
 				}
 				q := parseReq(f)
-				want := s.meshSpec(q.authority, q)
+				want, ok := s.meshSpec(q.authority, q)
+				if !ok {
+					return // contested name: the spec is silent
+				}
 				if got != want {
 					v.fail(s.classifyMesh(q, want, got), fmt.Sprintf("want=%s got=%s authority=%s path=%s proxy=%s/%s", want, got, f[4], f[1],
 						s.node.Metadata.Namespace, encPairs(sortedKV(s.node.Labels))))
